@@ -1,9 +1,9 @@
 SPECIFICATION CSpec
 CONSTANTS NAcc = 1
           NSlot = 1
-          MaxVal = 1
+          MaxVal = 2
           MaxDiffs = {1, 2}
-          HistLimits = {0, 1}
+          HistLimits = {0, 1, 2}
           Policies = {"any"}
           Asyncs = {FALSE}
           MaxId = 3
